@@ -478,7 +478,9 @@ pub fn pass_growth(ast: &Value) -> (u64, u64) {
         let _ = a;
         longest = longest.max(steps);
     }
-    let passes = if all_in_scope && chain_ok { 1 + longest } else { 100 };
+    // `resolve_types_and_aliases`: until everything counts as resolved, at most one pass per definition (+1), never
+    // more than 100
+    let passes = if all_in_scope && chain_ok { 1 + longest } else { (refs.len() + 1).min(100) };
     let edges: Vec<Vec<usize>> = refs.iter().map(|r| r.iter().filter_map(|n| index.get(n).copied()).collect()).collect();
     let type_walks = walks(&edges, passes);
     // --- transactions
